@@ -110,6 +110,182 @@ theorem diag_loop (n : Nat) (g : Nat → R → R) (y : Vec R) (k : Nat) :
         apply propext; omega
       simp [h, ih, h1]
 
+/-! ### elementwise loops -/
+
+omit [CommRing R] in
+theorem elemSem_get [Zero R] [Add R] [Sub R] [Mul R] [Neg R] [Div R]
+    (s : ElemSig) (n : Nat) (self : Nat → R) (k : R) (x : Nat → R) (t : Vec R) (i : Nat) :
+    (elemSem s n self k x t).get i
+      = if i < n then applyE s.op (t.get i) (erhs s.rhs (self i) k (x i)) else t.get i := by
+  unfold elemSem
+  exact diag_loop n (fun i v => applyE s.op v (erhs s.rhs (self i) k (x i))) t i
+
+omit [CommRing R] in
+theorem loop_upd_n (n : Nat) (g : Nat → Vec R → Nat) (h : Nat → Vec R → R) (t : Vec R) :
+    (forN n (fun i t => t.upd (g i t) (h i t)) t).n = t.n := by
+  induction n with
+  | zero => rfl
+  | succ n ih => rw [forN_succ, Vec.upd_n, ih]
+
+omit [CommRing R] in
+theorem elemSem_n [Zero R] [Add R] [Sub R] [Mul R] [Neg R] [Div R]
+    (s : ElemSig) (n : Nat) (self : Nat → R) (k : R) (x : Nat → R) (t : Vec R) :
+    (elemSem s n self k x t).n = t.n := by
+  unfold elemSem
+  exact loop_upd_n n (fun i _ => i) (fun i t => applyE s.op (t.get i) (erhs s.rhs (self i) k (x i))) t
+
+/-! ### stores into a matrix -/
+
+omit [CommRing R] in
+@[simp] theorem Mat.upd_e (M : Mat R) (a b : Nat) (v : R) (r c : Nat) :
+    (M.upd a b v).e r c = if r = a ∧ c = b then v else M.e r c := rfl
+omit [CommRing R] in
+@[simp] theorem Mat.upd_rows (M : Mat R) (a b : Nat) (v : R) : (M.upd a b v).rows = M.rows := rfl
+omit [CommRing R] in
+@[simp] theorem Mat.upd_cols (M : Mat R) (a b : Nat) (v : R) : (M.upd a b v).cols = M.cols := rfl
+
+omit [CommRing R] in
+theorem loop_mupd_shape (n : Nat) (ga gb : Nat → Mat R → Nat) (h : Nat → Mat R → R) (T : Mat R) :
+    (forN n (fun i T => T.upd (ga i T) (gb i T) (h i T)) T).rows = T.rows
+    ∧ (forN n (fun i T => T.upd (ga i T) (gb i T) (h i T)) T).cols = T.cols := by
+  induction n with
+  | zero => exact ⟨rfl, rfl⟩
+  | succ n ih => rw [forN_succ]; exact ⟨ih.1, ih.2⟩
+
+omit [CommRing R] in
+/-- a loop whose body preserves the shape preserves the shape -/
+theorem loop_shape (n : Nat) (f : Nat → Mat R → Mat R)
+    (hf : ∀ i T, (f i T).rows = T.rows ∧ (f i T).cols = T.cols) (T : Mat R) :
+    (forN n f T).rows = T.rows ∧ (forN n f T).cols = T.cols := by
+  induction n with
+  | zero => exact ⟨rfl, rfl⟩
+  | succ n ih =>
+    rw [forN_succ]
+    exact ⟨(hf n _).1.trans ih.1, (hf n _).2.trans ih.2⟩
+
+/-- innermost loop of a product nest: `for k < N: T[i][j] += t k` -/
+theorem mat_inner (i j N : Nat) (t : Nat → R) (T : Mat R) (a b : Nat) :
+    (forN N (fun k T => T.upd i j (T.e i j + t k)) T).e a b
+      = if a = i ∧ b = j then T.e i j + ∑ k ∈ range N, t k else T.e a b := by
+  induction N with
+  | zero => by_cases h : a = i ∧ b = j <;> simp [h]
+  | succ N ih =>
+    rw [forN_succ, Mat.upd_e, sum_range_succ]
+    by_cases h : a = i ∧ b = j
+    · obtain ⟨rfl, rfl⟩ := h
+      simp [ih]; ring
+    · simp [h, ih]
+
+/-- middle loop: `for j < J: [T[i][j] = 0;] for k < N: T[i][j] += t j k` -/
+theorem mat_mid (i J N : Nat) (t : Nat → Nat → R) (z : Bool) (T : Mat R) (a b : Nat) :
+    (forN J (fun j T => forN N (fun k T => T.upd i j (T.e i j + t j k)) (if z then T.upd i j 0 else T)) T).e a b
+      = if a = i ∧ b < J then (if z then 0 else T.e a b) + ∑ k ∈ range N, t b k else T.e a b := by
+  cases z
+  · simp only [Bool.false_eq_true, if_false]
+    induction J with
+    | zero => simp
+    | succ J ih =>
+      rw [forN_succ, mat_inner]
+      by_cases hb : b = J
+      · subst hb
+        by_cases ha : a = i
+        · subst ha; simp [ih]
+        · simp [ha, ih]
+      · have h1 : (b < J + 1) = (b < J) := by apply propext; omega
+        simp [hb, ih, h1]
+  · simp only [if_true]
+    induction J with
+    | zero => simp
+    | succ J ih =>
+      rw [forN_succ, mat_inner]
+      by_cases hb : b = J
+      · subst hb
+        by_cases ha : a = i
+        · subst ha; simp
+        · simp [ha, ih]
+      · have h1 : (b < J + 1) = (b < J) := by apply propext; omega
+        simp [hb, ih, h1]
+
+/-- the product loop nest with target `T[i][j]` -/
+theorem nest_ij (I J N : Nat) (t : Nat → Nat → Nat → R) (z : Bool) (T : Mat R) (a b : Nat) :
+    (forN I (fun i T => forN J (fun j T => forN N (fun k T => T.upd i j (T.e i j + t i j k))
+        (if z then T.upd i j 0 else T)) T) T).e a b
+      = if a < I ∧ b < J then (if z then 0 else T.e a b) + ∑ k ∈ range N, t a b k else T.e a b := by
+  induction I with
+  | zero => simp
+  | succ I ih =>
+    rw [forN_succ, mat_mid]
+    by_cases ha : a = I
+    · subst ha
+      by_cases hb : b < J <;> simp [hb, ih]
+    · have h1 : (a < I + 1) = (a < I) := by apply propext; omega
+      simp [ha, ih, h1]
+
+omit [CommRing R] in
+theorem nest_shape [Add R] [Zero R] (I J N : Nat) (t : Nat → Nat → Nat → R) (z : Bool) (T : Mat R) :
+    (forN I (fun i T => forN J (fun j T => forN N (fun k T => T.upd i j (T.e i j + t i j k))
+        (if z then T.upd i j 0 else T)) T) T).rows = T.rows
+    ∧ (forN I (fun i T => forN J (fun j T => forN N (fun k T => T.upd i j (T.e i j + t i j k))
+        (if z then T.upd i j 0 else T)) T) T).cols = T.cols := by
+  apply loop_shape
+  intro i T
+  apply loop_shape
+  intro j T
+  have h := loop_mupd_shape N (fun _ _ => i) (fun _ _ => j) (fun k T => T.e i j + t i j k) (if z then T.upd i j 0 else T)
+  cases z <;> simpa using h
+
+omit [CommRing R] in
+/-- the transposition nest `for o < O: for n < N: T[n][o] = src o n` -/
+theorem trans_nest (O N : Nat) (src : Nat → Nat → R) (T : Mat R) (a b : Nat) :
+    (forN O (fun o T => forN N (fun n T => T.upd n o (src o n)) T) T).e a b
+      = if a < N ∧ b < O then src b a else T.e a b := by
+  have inner : ∀ (o N : Nat) (T : Mat R) (a b : Nat),
+      (forN N (fun n T => T.upd n o (src o n)) T).e a b = if a < N ∧ b = o then src o a else T.e a b := by
+    intro o N T a b
+    induction N with
+    | zero => simp
+    | succ N ih =>
+      rw [forN_succ, Mat.upd_e]
+      by_cases ha : a = N
+      · subst ha
+        by_cases hb : b = o <;> simp [hb, ih]
+      · have h1 : (a < N + 1) = (a < N) := by apply propext; omega
+        simp [ha, ih, h1]
+  induction O with
+  | zero => simp
+  | succ O ih =>
+    rw [forN_succ, inner]
+    by_cases hb : b = O
+    · subst hb
+      by_cases ha : a < N <;> simp [ha, ih]
+    · have h1 : (b < O + 1) = (b < O) := by apply propext; omega
+      simp [hb, ih, h1]
+
+omit [CommRing R] in
+theorem trans_shape (O N : Nat) (src : Nat → Nat → R) (T : Mat R) :
+    (forN O (fun o T => forN N (fun n T => T.upd n o (src o n)) T) T).rows = T.rows
+    ∧ (forN O (fun o T => forN N (fun n T => T.upd n o (src o n)) T) T).cols = T.cols := by
+  apply loop_shape
+  intro o T
+  exact loop_mupd_shape N (fun n _ => n) (fun _ _ => o) (fun n _ => src o n) T
+
+omit [CommRing R] in
+/-- `dense = 0; for i < n: dense[i][i] = d i` -/
+theorem diag_assign_loop [Zero R] (n : Nat) (d : Nat → R) (T : Mat R) (a b : Nat) :
+    (forN n (fun i (M : Mat R) => M.upd i i (d i)) T).e a b = if a = b ∧ a < n then d a else T.e a b := by
+  induction n with
+  | zero => simp
+  | succ n ih =>
+    rw [forN_succ, Mat.upd_e]
+    by_cases h : a = n ∧ b = n
+    · obtain ⟨rfl, rfl⟩ := h; simp
+    · by_cases hab : a = b
+      · subst hab
+        have : ¬ a = n := fun e => h ⟨e, e⟩
+        have h1 : (a < n + 1) = (a < n) := by apply propext; omega
+        simp [this, ih, h1]
+      · simp [h, ih, hab]
+
 end DV.C01
 
 namespace DV.C01
